@@ -705,6 +705,11 @@ func (s *Sim) oracleC10(op Op, evs []SIEvent) {
 		if a.State == "Completed" && (real > 0 || pending > 0) {
 			s.violate("C10", "completed-with-work", "", "application %s is Completed with %d real allocations and %d outstanding asks", id, real, pending)
 		}
+		if a.State == "Completing" && pending > 0 {
+			// an ask takes a Completing application back to Running at once: Completing with an outstanding ask is an
+			// application that will complete under it
+			s.violate("C10", "completing-with-asks", "", "application %s is Completing and has %d outstanding asks", id, pending)
+		}
 		if a.State == "Completing" && real > 0 {
 			// Completing is the state of an application without work (it completes when left alone): one that holds a
 			// bound real allocation is on its way to Completed with that allocation
@@ -712,6 +717,27 @@ func (s *Sim) oracleC10(op Op, evs []SIEvent) {
 		}
 		if a.State == "Running" && len(a.Allocs) == 0 && pending == 0 {
 			s.violate("C10", "idle-not-completing", "", "application %s is Running with no allocations and no outstanding asks (should be Completing)", id)
+		}
+	}
+	// applications that have left the partition as Completed took nothing with them
+	for _, id := range sortedKeys(p.Done) {
+		a := p.Done[id]
+		if a.State != "Completed" || a.Where != "completed" {
+			continue
+		}
+		real, pending := 0, 0
+		for _, al := range a.Allocs {
+			if !al.Placeholder {
+				real++
+			}
+		}
+		for _, ask := range a.Asks {
+			if !ask.Allocated {
+				pending++
+			}
+		}
+		if real > 0 || pending > 0 {
+			s.violate("C10", "completed-with-work", "left", "application %s completed and left the partition with %d real allocations and %d outstanding asks", id, real, pending)
 		}
 	}
 	for _, e := range evs {
